@@ -22,6 +22,7 @@ import (
 	"database/sql/driver"
 	"encoding/json"
 	"fmt"
+	"io/ioutil"
 	"path/filepath"
 	"reflect"
 	"strings"
@@ -164,6 +165,15 @@ func execSub(db *sqlgen.DB, ctx context.Context, t *sqlh.TableDesc, pool sqlh.Po
 		pt = "harness: unknown op " + s.Op
 	}
 	return
+}
+
+func exercisedName(m string) (string, bool) {
+	for op, k := range methodOf {
+		if k == m {
+			return op, true
+		}
+	}
+	return "", false
 }
 
 // cleanups: what the harness has to undo after a case (transactions opened by a WithTx under test).
@@ -1052,7 +1062,7 @@ func main() {
 		}
 		switch {
 		case !known:
-			run.Hist("method-outside-the-harness:" + m + " (Gen/DbMethods.v and the theorem c12_every_exported_method_is_modelled decide whether it can reach the database)")
+			run.Hist("method-outside-the-harness:" + m + " (the table extracted from the source decides whether it reaches the database: see component 6)")
 		case exercised[m] > 0:
 			called++
 			run.Histogram["method:"+m] += exercised[m]
@@ -1061,5 +1071,32 @@ func main() {
 		}
 	}
 	run.Hist(fmt.Sprintf("methods: %d of the %d exported methods of sqlgen.DB called", called, dbType.NumMethod()))
+	// the table of exported methods of the tree under test, extracted from its source (go/ast), for the evaluator:
+	// written into the run's own directory (concurrent runs on other trees have their own)
+	if o.Replay == "" {
+		rows, problem := sqlh.ExtractDBMethods(o.Repo)
+		var terms, noAccess []string
+		for _, r := range rows {
+			terms = append(terms, fmt.Sprintf("  (%s, (%s, %s, %s))", vh.CoqString(r.Name), vh.CoqBool(r.Query), vh.CoqBool(r.Exec), vh.CoqBool(r.Tx)))
+			if _, known := exercisedName(r.Name); !known && !r.Query && !r.Exec && !r.Tx {
+				noAccess = append(noAccess, r.Name)
+			}
+		}
+		if problem != "" { // a table the model cannot cover: the evaluator reports it
+			terms = append(terms, fmt.Sprintf("  (%s, (true, true, true))", vh.CoqString("extraction problem: "+problem)))
+		}
+		if len(noAccess) > 0 {
+			run.Hist("exported methods without database access (no case in the model needed): " + strings.Join(noAccess, ", "))
+		}
+		src := "From Coq Require Import List ZArith String.\nFrom Thunder Require Import Sql.Model Sql.Methods Sql.ModelCheck.\nImport ListNotations.\nOpen Scope string_scope.\nOpen Scope list_scope.\n" +
+			"(* exported methods of sqlgen.DB in " + o.Repo + "/sqlgen: (method, (reaches a query call, an exec call, a transaction begin)) *)\n" +
+			"Definition cases : list (string * (bool * bool * bool)) := [\n" + strings.Join(terms, ";\n") + "\n].\n" +
+			"Definition M := Eval vm_compute in methods_mismatch 0 cases.\nPrint M.\n"
+		if err := ioutil.WriteFile(filepath.Join(o.Out, "cases_methods.v"), []byte(src), 0o644); err == nil {
+			run.CasesV = append(run.CasesV, "cases_methods.v")
+		} else {
+			run.Fail(-1, "c12-harness-cannot-run", "cannot write the table of exported methods: "+err.Error(), nil)
+		}
+	}
 	run.Finish()
 }
